@@ -264,6 +264,91 @@ func streamCloseNilsFields() (bool, bool) {
 	return sp.GetReader() == nil, sp.GetWriter() == nil
 }
 
+// streamAcquireShape: in acquireReadLock / acquireWriteLock, is the lock taken BEFORE Dispose.IsClosed() is tested?
+func streamAcquireShape() (found, lockFirst bool) {
+	fset := token.NewFileSet()
+	f, err := parser.ParseFile(fset, filepath.Join(repoRoot(), "internal/stream/stream_processor.go"), nil, 0)
+	if err != nil {
+		return
+	}
+	n, first := 0, 0
+	for _, name := range []string{"acquireReadLock", "acquireWriteLock"} {
+		fd := findMethod(f, "StreamProcessor", name)
+		if fd == nil {
+			return false, false
+		}
+		txt := nodeText(fset, fd.Body)
+		il, ic := strings.Index(txt, "Lock.Lock()"), strings.Index(txt, "IsClosed()")
+		if il < 0 || ic < 0 {
+			return false, false
+		}
+		n++
+		if il < ic {
+			first++
+		}
+	}
+	return n == 2 && (first == 0 || first == 2), first == 2
+}
+
+// mappingCleanupShape: the clean handler registered by NewBaseMappingHandler: does it contain a return statement other
+// than its last statement (an early return between the sub-component shutdown calls)?
+func mappingCleanupShape() (found, earlyReturn bool) {
+	fset := token.NewFileSet()
+	f, err := parser.ParseFile(fset, filepath.Join(repoRoot(), "internal/client/mapping/base.go"), nil, 0)
+	if err != nil {
+		return
+	}
+	ast.Inspect(f, func(n ast.Node) bool {
+		ce, ok := n.(*ast.CallExpr)
+		if !ok || len(ce.Args) != 1 {
+			return true
+		}
+		if sel, ok := ce.Fun.(*ast.SelectorExpr); !ok || sel.Sel.Name != "AddCleanHandler" {
+			return true
+		}
+		fl, ok := ce.Args[0].(*ast.FuncLit)
+		if !ok || !strings.Contains(nodeText(fset, fl.Body), "adapter.Close()") {
+			return true
+		}
+		found = true
+		var last ast.Stmt
+		if k := len(fl.Body.List); k > 0 {
+			last = fl.Body.List[k-1]
+		}
+		ast.Inspect(fl.Body, func(m ast.Node) bool {
+			if _, isLit := m.(*ast.FuncLit); isLit && m != ast.Node(fl) {
+				return false
+			}
+			if r, ok := m.(*ast.ReturnStmt); ok && ast.Stmt(r) != last {
+				earlyReturn = true
+			}
+			return true
+		})
+		return false
+	})
+	return
+}
+
+// bridgeCloseShape: does (*Bridge).Close return early when the bridge is already closed?
+func bridgeCloseShape() (found, fastPath bool) {
+	fset := token.NewFileSet()
+	f, err := parser.ParseFile(fset, filepath.Join(repoRoot(), "internal/protocol/session/tunnel/bridge.go"), nil, 0)
+	if err != nil {
+		return
+	}
+	fd := findMethod(f, "Bridge", "Close")
+	if fd == nil {
+		return
+	}
+	found = true
+	for _, s := range fd.Body.List {
+		if is, ok := s.(*ast.IfStmt); ok && strings.Contains(nodeText(fset, is.Cond), "IsClosed()") && strings.Contains(nodeText(fset, is.Body), "return") {
+			fastPath = true
+		}
+	}
+	return
+}
+
 func coqBool(b bool) string {
 	if b {
 		return "true"
@@ -298,6 +383,15 @@ func gen() {
 	wf, whold := sourceWriterShape()
 	fmt.Println("(* dynamicSourceWriter.Write: sourceConnMu.RLock still held while the forwarder's Write runs *)")
 	fmt.Printf("Definition SourceWriterShapeFound : bool := %s.\nDefinition SourceWriterHoldsLockAcrossWrite : bool := %s.\n", coqBool(wf), coqBool(whold))
+	af, alf := streamAcquireShape()
+	fmt.Println("(* StreamProcessor.acquireReadLock / acquireWriteLock: the lock is taken before Dispose.IsClosed() is tested *)")
+	fmt.Printf("Definition StreamAcquireShapeFound : bool := %s.\nDefinition StreamLockBeforeClosedCheck : bool := %s.\n", coqBool(af), coqBool(alf))
+	mf, mer := mappingCleanupShape()
+	fmt.Println("(* the clean handler of NewBaseMappingHandler has a return statement before its last statement *)")
+	fmt.Printf("Definition MappingCleanupFound : bool := %s.\nDefinition MappingCleanupEarlyReturn : bool := %s.\n", coqBool(mf), coqBool(mer))
+	bf, bfp := bridgeCloseShape()
+	fmt.Println("(* Bridge.Close returns at once when the bridge is already closed *)")
+	fmt.Printf("Definition BridgeCloseFound : bool := %s.\nDefinition BridgeCloseFastPath : bool := %s.\n", coqBool(bf), coqBool(bfp))
 	fmt.Printf("Definition BatchUpdateThreshold : N := %d%%N.\n", int64(constants.BatchUpdateThreshold))
 }
 
